@@ -155,13 +155,18 @@ def gen_module(ctx, name, base, cap, prog, tab, trace):
     ordv = ", ".join(f'{l} |-> "{tab[l]}"' for l in LABELS)
     d = ctx.path("mc", "ruis-" + name, "x")[:-2]
     with open(os.path.join(d, f"{name}.tla"), "w") as f:
-        f.write(f"---- MODULE {name} ----\nEXTENDS {base}\nOrdVal == [{ordv}]\nProgVal == {tla_prog(prog)}\n====\n")
+        # two snapshot loops (lock() / borrowed_indices()) can make each other's generation bracket fail for ever: the
+        # counter is bounded by a state CONSTRAINT (every operation increments it at most twice + a few failed brackets), so that
+        # the state space is finite and the counter never reaches the model's LOCK value by counting
+        gcmax = 2 * sum(len(t) for t in prog) + 4
+        f.write(f"---- MODULE {name} ----\nEXTENDS {base}\nOrdVal == [{ordv}]\nProgVal == {tla_prog(prog)}\n"
+                f"GcBounded == LatestVal(GC) = LOCK \\/ LatestVal(GC) <= {gcmax}\n====\n")
     consts = f"CONSTANTS\n Cap = {cap}\n Prog <- ProgVal\n Ord <- OrdVal\n LockRetries = {'TRUE' if tab['LockRetries'] else 'FALSE'}\n"
     with open(os.path.join(d, f"{name}.cfg"), "w") as f:
         if trace:
             f.write("SPECIFICATION TraceSpec\n" + consts + "CONSTRAINT Progress\nPOSTCONDITION Accepted\nCHECK_DEADLOCK FALSE\n")
         else:
-            f.write("SPECIFICATION Spec\n" + consts + f"INVARIANTS {INVS}\nCHECK_DEADLOCK FALSE\n")
+            f.write("SPECIFICATION Spec\n" + consts + f"INVARIANTS {INVS}\nCONSTRAINT GcBounded\nCHECK_DEADLOCK FALSE\n")
     return d
 
 
